@@ -505,6 +505,14 @@ func (c *c12) l2(thorough bool) {
 			nv := NewValKey(3000 + s)
 			bz, _ := l2.Enc.Codec.MarshalInterfaceJSON(nv.Pub)
 			list := []string{mon.Pick(c.rng, pool).String()}
+			if c.rng.Chance(40) {
+				// every validator slot is taken when the plan fires
+				vs, _ := l2.Q.Validators(l2.Ctx, &opchildtypes.QueryValidatorsRequest{})
+				p, _ := l2.K.GetParams(l2.Ctx)
+				p.MaxValidators = uint32(len(vs.Validators))
+				res := l2.Deliver(opchildtypes.NewMsgUpdateParams(l2.Authority, &p))
+				log = append(log, fmt.Sprintf("max validators lowered to the current count %d (%s)", p.MaxValidators, res.Class))
+			}
 			err := l2.K.RegisterExecutorChangePlan(uint64(s+1), h, nv.Operator.Val(), "m", string(bz), "i", list)
 			br := l2.EndBlock()
 			_, _ = l2.BeginBlock(1e9)
@@ -512,6 +520,11 @@ func (c *c12) l2(thorough bool) {
 			if err == nil && br.EndErr == nil {
 				pastExecs = append(pastExecs, execs...)
 				execs = list
+			}
+			// room again for the matrix's own add-validator probes
+			if p, _ := l2.K.GetParams(l2.Ctx); p.MaxValidators != 100 {
+				p.MaxValidators = 100
+				l2.Deliver(opchildtypes.NewMsgUpdateParams(l2.Authority, &p))
 			}
 		default:
 			l2.EndBlock()
